@@ -53,14 +53,14 @@ func ZzC18() {
 	type peerCfg struct {
 		serv    *ExchangeServer[*zh.Hdr]
 		avail   int
-		fault   int // 0 none, 1 answers only a prefix once, 2 times out once, 3 disconnects (errors from its 2nd request on)
+		fault   int // 0 none, 1 answers only a prefix once, 2 times out once, 3 disconnects (errors from its 2nd request on), 4 sends a prefix and then stalls past the request timeout (once)
 		calls   int
 		tripped bool
 	}
 	cfgs := make([]*peerCfg, P)
 	capable := false
 	for i := range cfgs {
-		c := &peerCfg{avail: zz.Choice("p"+zzItoa(i)+".avail", N+1), fault: zz.Choice("p"+zzItoa(i)+".fault", 4)}
+		c := &peerCfg{avail: zz.Choice("p"+zzItoa(i)+".avail", N+1), fault: zz.Choice("p"+zzItoa(i)+".fault", 5)}
 		c.serv = &ExchangeServer[*zh.Hdr]{store: &zzPrefixStore{chain: env.chain, avail: c.avail}, Params: DefaultServerParameters(), ctx: context.Background()}
 		if c.avail >= int(to-1) && c.fault == 0 {
 			capable = true
@@ -69,7 +69,7 @@ func ZzC18() {
 	}
 	zz.Assume(capable) // together the peers hold the range and one of them is fault-free
 
-	env.behave = func(p int, origin, amount uint64, nth int) ([]*p2p_pb.HeaderResponse, error) {
+	env.behaveCtx = func(rctx context.Context, p int, origin, amount uint64, nth int) ([]*p2p_pb.HeaderResponse, error) {
 		c := cfgs[p]
 		c.calls++
 		switch {
@@ -88,13 +88,21 @@ func ZzC18() {
 		default:
 			return nil, zzErrNet5 // stream reset
 		}
-		if c.fault == 1 && !c.tripped && len(hs) > 1 {
+		stall := false
+		if (c.fault == 1 || c.fault == 4) && !c.tripped && len(hs) > 1 {
 			c.tripped = true
 			hs = hs[:1+zz.Choice("prefix", len(hs)-1)] // answers only a prefix
+			stall = c.fault == 4
 		}
 		var out []*p2p_pb.HeaderResponse
 		for _, h := range hs {
 			out = append(out, zzResp(h))
+		}
+		if stall {
+			// the rest never comes: the stream read fails when the request deadline passes, and
+			// sendMessage hands back what it has read so far together with that error
+			<-rctx.Done()
+			return out, rctx.Err()
 		}
 		return out, nil
 	}
